@@ -189,7 +189,7 @@ def _verdict_cache_load(items, tag):
     return hits, todo
 
 
-def run_units(units, nproc=None, timeout=10, retry=60, want_both=False):
+def run_units(units, nproc=None, timeout=10, retry=60, want_both=False, only_prop=None):
     """-> (unit reports, obligation table {oid: {...}})"""
     import pickle
     nproc = nproc or int(os.environ.get("PYVC_NPROC", "16"))
@@ -203,6 +203,8 @@ def run_units(units, nproc=None, timeout=10, retry=60, want_both=False):
             reports = pool.map(run_unit_cached, units, chunksize=1)
     items = []
     for ri, rep in enumerate(reports):
+        if only_prop is not None:
+            rep["obligs"] = [ob for ob in rep["obligs"] if only_prop in ob["props"]]
         for oi, ob in enumerate(rep["obligs"]):
             items.append(((ri, oi), ob["smt2"]))
     tag = f"{timeout}|{retry}|{want_both}|"
@@ -212,7 +214,7 @@ def run_units(units, nproc=None, timeout=10, retry=60, want_both=False):
         hits, todo = _verdict_cache_load(items, tag)
     verdicts, nuniq = discharge_all([(k, t) for k, t, _ in todo], timeout=timeout, retry=retry, want_both=want_both)
     for k, t, p in todo:
-        if p is not None and verdicts[k]["result"] in ("unsat", "sat"):
+        if p is not None and verdicts[k]["result"] in ("unsat", "sat", "unknown"):
             try:
                 os.makedirs(CACHE_DIR, exist_ok=True)
                 with open(p + f".{os.getpid()}.tmp", "wb") as f:
